@@ -124,6 +124,8 @@ def encoding_unit():
              before_tail="assert(spec_decode(bytes_val(self.0@)) is Some);",
              props=("C01", "C02", "C06"))
     items.append(Item(ENC, "impl Encoding", [dec]))
+    # the deprecated alias is an entry point like the others
+    items.append(Item(ENC, "impl Encoding", [Fn("decompress", ensures="r == decode_result(self.0@)", preamble=BU, props=("C02", "C06"))]))
     for f_ in [
         Fn("negate", ensures="repr(r.inner) == te_neg(repr(self.inner))", preamble=BU, props=("C04",)),
         Fn("vartime_compress_to_field", ensures="r.val() == spec_encode(repr(self.inner))", preamble=BU, props=("C01", "C03")),
@@ -341,6 +343,17 @@ def unit(which):
 BUE = "broadcast use fq_abs, fr_abs, to_affine_idem, to_affine_wf, ark_mul_is_smul, arepr_of_aff, repr_of_p4, validity_axioms, le32_axioms;"
 
 ELEMENT_LEMMAS = r"""
+// rand.rs: the RNG and the arkworks curve-point sampler are arbitrary sources (A-ARK-2 / A-STD)
+pub trait Rng {}
+pub struct Standard;
+impl EdwardsProjective {
+    #[verifier::external_body]
+    pub fn rand<R: Rng + ?Sized>(rng: &mut R) -> (r: EdwardsProjective) { unimplemented!() }
+    // CanonicalSerialize::serialize_compressed into a 32-byte buffer (arkworks compressed form: 32 bytes)
+    #[verifier::external_body]
+    pub fn serialize_compressed_into(&self, out: &mut [u8; 32]) -> (r: Result<(), SerializationError>) ensures r is Ok { unimplemented!() }
+}
+
 // Hash of a [u8; 32] (core: length prefix, then the bytes): a function of the bytes only
 pub uninterp spec fn hash_prefix32() -> Seq<u8>;
 pub trait HashBytes { spec fn hb(&self) -> Seq<u8>; }
@@ -387,6 +400,19 @@ def element_unit():
     items = list(stubs) + conv_items_stub()
     items.append(Item(ENC, "impl Element", [Fn("vartime_compress", ensures="r.0 == le32(spec_encode(repr(self.inner))), r.0@[31] < 32")],
                       mode="stub", proved_in="ark_encoding"))
+    # samplers (src/ark_curve/rand.rs): whatever the RNG stream, the value handed out went through the decoder
+    RAND = "src/ark_curve/rand.rs"
+    items.append(Item(RAND, "impl Distribution<Element> for Standard", [Fn(
+        "sample", props=("C06",), preamble=BUE, attrs=R12, loops_begin={0: BUE + " broadcast use lemma_bytes_val_bound, curve_axioms;"},
+        ensures="valid(repr(r.inner))",
+        subst=[("R6", r'\.serialize_compressed\(&mut (\w+)\[\.\.\]\)', r'.serialize_compressed_into(&mut \1)'),
+               ("R6", r'\.expect\("[^"]*"\)', '.unwrap()'),
+               ("R27", r'(if let Ok\(p\) = [^{]*\{)', r'\1 proof { lemma_bytes_val_bound(bytes@); assert(bytes@.take(32) =~= bytes@); }')])],
+        header_out="impl Standard"))
+    items.append(Item(ENC, "impl Encoding", [Fn("vartime_decompress", ensures="r == decode_result(self.0@)")], mode="stub", proved_in="ark_encoding"))
+    items.append(Item(RAND, "impl Distribution<AffinePoint> for Standard", [Fn(
+        "sample", variant="#affine", props=("C06",), preamble=BUE, ensures="valid(arepr(r.inner))",
+        subst=[("R13b", r'\bself\.sample\(rng\)', 'self.sample(rng)')])], header_out="impl Standard"))
     # Add impls used by the Sum folds, as stubs (proved in ark_ops)
     ops_stub = [dataclasses.replace(it, mode="stub", proved_in="ark_ops",
                                     fns=[dataclasses.replace(f, preamble="") for f in it.fns])
